@@ -2,6 +2,7 @@ import Restli.Model.EndToEnd
 import Restli.Proofs.Routing
 import Restli.Proofs.Tunnel
 import Restli.Proofs.SortKeys
+import Restli.Proofs.RoundTripJson
 /-! Helper lemmas for C02 (end-to-end call fidelity). Property theorems: `Props/C02.lean`. -/
 namespace Restli.E2E
 open Restli Restli.Codec
@@ -56,6 +57,8 @@ theorem cutAt_append (sep : UInt8) : ∀ (k v : Bytes), (∀ c ∈ k, c ≠ sep)
 /-- a name/value pair that can be told apart again: the name is non-empty and free of `&` and `=`,
 the value is free of `&` -/
 def PairClean (e : Bytes × Bytes) : Prop := e.1 ≠ [] ∧ (∀ c ∈ e.1, c ≠ 38 ∧ c ≠ 61) ∧ (∀ c ∈ e.2, c ≠ 38)
+
+instance (e : Bytes × Bytes) : Decidable (PairClean e) := by unfold PairClean; infer_instance
 
 /-- `ParseQueryParams` cuts what was joined with `&` and `=` into the pairs that were joined -/
 theorem parseQuery_join (ps : List (Bytes × Bytes)) (h : ∀ e ∈ ps, PairClean e) :
@@ -461,6 +464,14 @@ structure ConstsOk (K : Consts) : Prop where
   /-- `MethodNameMapping[m.String()] = m` -/
   names : ∀ m, m ≠ Method.unknown → nameMapping K.R (strOf (sB (methodName K.R m))) = m
   namesNe : ∀ m, m ≠ Method.unknown → sB (methodName K.R m) ≠ []
+  /-- the v2 writers sort keys (what the codec round-trip theorems are stated for) -/
+  sortKeys : K.sortKeys = true
+  /-- a successful call without a status of its own answers 200 -/
+  okStatus : K.R.srvInitialStatus = 200
+  /-- the members of the collection envelope, in the order the sorting writer emits them -/
+  elemMeta : bytesLt K.fElements K.fMetadata = true
+  metaPaging : bytesLt K.fMetadata K.fPaging = true
+  elemPaging : bytesLt K.fElements K.fPaging = true
 
 theorem verbBytes_ne_nil (m : Method) : verbBytes m ≠ [] := by
   cases m <;> decide +kernel
@@ -748,5 +759,180 @@ theorem decodeInvocation_client (K : Consts) (env : Env) (r : ResSpec) (texts : 
   simp only [decodeInvocation, hk, hb]
   rw [show (plainReq K.T path fq ((pairs.map joinQuery).getD []) verb rm body).rawQuery =
     (pairs.map joinQuery).getD [] from rfl, hq]
+
+/-! ## the response direction -/
+
+/-- the JSON text a writer emitted parses (strictly) to the tree the writers denote — C03's pending
+whole-document theorem; compared with `encoding/json` and the Lean parser on every run -/
+structure JsonText (d : Doc) : Prop where
+  parses : Json.parse (renderJson d) = some (treeOf jsonEnc d)
+  nonEmpty : (renderJson d).isEmpty = false
+  notNull : (renderJson d == nullLit) = false
+
+theorem parseJson_text (d : Doc) (h : JsonText d) : parseJson (renderJson d) = .ok (treeOf jsonEnc d) := by
+  simp [parseJson, h.parses, h.nonEmpty, h.notNull]
+
+theorem wcfg_eq (K : Consts) (hK : ConstsOk K) (env : Env) (F : FloatLaws) (C : ConvLaws) (S : SchemaOK env) :
+    wcfg K env = (jsonCtx env F C S).cfg := by
+  simp [wcfg, jsonCtx, RTCtx.cfg, hK.sortKeys]
+
+/-- the entity a `get` returns is what the client returns: C01's JSON tree round trip, applied -/
+theorem returns_entity_get (K : Consts) (hK : ConstsOk K) (env : Env) (F : FloatLaws) (C : ConvLaws) (S : SchemaOK env)
+    (keq : Value → Value → Bool) (r : ResSpec) (c : Call) (n : TName) (hs : r.schema = some n)
+    (hkind : r.method.kind = .get) (v : Value) (hv : ValOK v) (d : Doc)
+    (henc : encode (wcfg K env) encFuel [] (.ref n) v = .ok d) (ht : JsonText d) :
+    ∃ resp, serverRespond K env r (.entity v) = some resp ∧
+      clientReturns K env keq r c resp = .entity (norm env encFuel (.ref n) v) := by
+  refine ⟨⟨K.R.srvInitialStatus, Option.none, false, some (renderJson d)⟩, ?_, ?_⟩
+  · simp [serverRespond, hs, henc, toOpt, hkind]
+  · have hrt := json_roundtrip_tree env F C S 0 encFuel [] [] true (.ref n) v d hv (by rw [← wcfg_eq K hK env F C S]; exact henc)
+    simp only [clientReturns, headerOnWire, hK.okStatus, hkind, hs]
+    simp [parseJson_text d ht, Dec.bind, jsonTCfg, hrt, ofTRes', decRet]
+
+/-- a header field value that net/http hands to the client as it was written: no CR/LF, no leading
+or trailing space or tab, no control byte — and not empty (an empty `X-RestLi-Id` counts as absent) -/
+def HeaderSafe (t : Bytes) : Prop := headerOnWire t = some t ∧ t ≠ []
+
+instance (t : Bytes) : Decidable (HeaderSafe t) := by unfold HeaderSafe; infer_instance
+
+/-- the status a create answers with: the implementation's, 201 when it left it at zero -/
+def createdStatus (cr : Created) : Nat := if cr.status == 0 then 201 else cr.status
+
+/-- **created id and status** (guarded): when the id's header text is a transparent header value,
+the client returns the id the header text decodes to (C01, header flavour: the implementation's id)
+and the status the implementation chose -/
+theorem returns_created (K : Consts) (env : Env) (keq : Value → Value → Bool) (r : ResSpec) (c : Call)
+    (kt : Ty) (hkt : lastKeyTy r.segs = some kt) (hkind : r.method.kind = .create) (hre : r.method.returnEntity = false)
+    (cr : Created) (idt : Bytes) (hid : ror2Text K env K.headerEsc kt cr.id = some idt)
+    (hsafe : HeaderSafe idt) (id' : Value) (hdec : ofRes (unmarshalRor2 (pathRCfg env) kt idt) = .ok id')
+    (hst : createdStatus cr / 100 = 2) :
+    ∃ resp, serverRespond K env r (.created cr) = some resp ∧
+      clientReturns K env keq r c resp = .created id' (createdStatus cr) Option.none := by
+  refine ⟨⟨createdStatus cr, some idt, false, Option.none⟩, ?_, ?_⟩
+  · simp [serverRespond, hkt, hid, hre, createdStatus]
+  · have hne : idt.isEmpty = false := by
+      cases h : idt with
+      | nil => exact absurd h hsafe.2
+      | cons a b => rfl
+    have hst' : (createdStatus cr / 100 != 2) = false := by simp [hst]
+    simp only [clientReturns, hsafe.1, Option.map_some, hkind, hre, hkt, hst']
+    simp [hne, hdec, decRet]
+
+/-- **action result**: the value an action returns is what the client returns (the `value` envelope
+opened, C01's JSON tree round trip applied to its content) -/
+theorem returns_action (K : Consts) (hK : ConstsOk K) (env : Env) (F : FloatLaws) (C : ConvLaws) (S : SchemaOK env)
+    (keq : Value → Value → Bool) (r : ResSpec) (c : Call) (ty : Ty) (hret : r.method.ret = some ty)
+    (hkind : r.method.kind = .action) (v : Value) (hv : ValOK v) (d : Doc)
+    (henc : encode (wcfg K env) encFuel [K.fValue] ty v = .ok d)
+    (ht : JsonText ((wcfg K env).finish [(K.fValue, d)])) :
+    ∃ resp, serverRespond K env r (.action v) = some resp ∧
+      clientReturns K env keq r c resp = .action (norm env encFuel ty v) := by
+  refine ⟨⟨K.R.srvInitialStatus, Option.none, false, some (renderJson ((wcfg K env).finish [(K.fValue, d)]))⟩, ?_, ?_⟩
+  · simp [serverRespond, hret, henc, toOpt]
+  · have hrt := json_roundtrip_tree env F C S 0 encFuel [K.fValue] [.key K.fValue] false ty v d hv
+      (by rw [← wcfg_eq K hK env F C S]; exact henc)
+    have htree : treeOf jsonEnc ((wcfg K env).finish [(K.fValue, d)]) = .obj [(K.fValue, treeOf jsonEnc d)] := by
+      simp [EncCfg.finish, wcfg, hK.sortKeys, sortByKey, insertByKey, treeOf, treeOfKvs, jsonEnc]
+    simp only [clientReturns, hK.okStatus, hkind, hret]
+    simp [parseJson_text _ ht, htree, Dec.bind, soleMember, jsonTCfg, hrt, ofTRes', decRet]
+
+theorem ne_of_bytesLt {a b : Bytes} (h : bytesLt a b = true) : a ≠ b := by
+  intro e; subst e; rw [bytesLt_irrefl] at h; cases h
+
+theorem beq_false_of_ne {a b : Bytes} (h : a ≠ b) : (a == b) = false := beq_eq_false_iff_ne.mpr h
+
+/-- the elements of a collection response, read back one by one (C01's JSON tree round trip applied
+to each) -/
+theorem decodeArr_items (K : Consts) (hK : ConstsOk K) (env : Env) (F : FloatLaws) (C : ConvLaws) (S : SchemaOK env)
+    (ty : Ty) (scopeR : List Codec.Seg) :
+    ∀ (vs : List Value) (ds : List Doc), (∀ v ∈ vs, ValOK v) → encElems K env ty vs = some ds →
+      decodeArr (fun x => ofTRes' (treeRead (jsonTCfg env 0) false scopeR ty x)) (treeOfItems jsonEnc ds) =
+        .ok (vs.map (norm env encFuel ty))
+  | [], ds, _, h => by
+    simp only [encElems, mapM', Option.some.injEq] at h
+    subst h
+    simp [treeOfItems, decodeArr]
+  | v :: vs, ds, hv, h => by
+    simp only [encElems, mapM'] at h
+    cases h1 : toOpt (encode (wcfg K env) encFuel [K.fElements, Gen.wildCard] ty v) with
+    | none => simp [h1] at h
+    | some d =>
+      cases h2 : mapM' (fun v => toOpt (encode (wcfg K env) encFuel [K.fElements, Gen.wildCard] ty v)) vs with
+      | none => simp [h1, h2] at h
+      | some ds' =>
+        simp only [h1, h2, Option.some.injEq] at h
+        subst h
+        have henc : encode (wcfg K env) encFuel [K.fElements, Gen.wildCard] ty v = .ok d := by
+          cases he : encode (wcfg K env) encFuel [K.fElements, Gen.wildCard] ty v with
+          | ok x => rw [he] at h1; simp only [toOpt, Option.some.injEq] at h1; rw [h1]
+          | error e => rw [he] at h1; simp [toOpt] at h1
+        have hrt := json_roundtrip_tree env F C S 0 encFuel [K.fElements, Gen.wildCard] scopeR false ty v d
+          (hv v (List.mem_cons_self ..)) (by rw [← wcfg_eq K hK env F C S]; exact henc)
+        have ih := decodeArr_items K hK env F C S ty scopeR vs ds' (fun x hx => hv x (List.mem_cons_of_mem _ hx)) h2
+        simp only [treeOfItems, decodeArr, jsonTCfg] at ih ⊢
+        rw [hrt, ih]
+        simp [ofTRes', Dec.bind]
+
+/-- **elements with paging**: what `get_all` / a finder (without declared metadata) returns is what
+the client returns — every element, in order, and the paging record -/
+theorem returns_elements (K : Consts) (hK : ConstsOk K) (env : Env) (F : FloatLaws) (C : ConvLaws) (S : SchemaOK env)
+    (keq : Value → Value → Bool) (r : ResSpec) (c : Call) (ty : Ty)
+    (hkind : r.method.kind = .get_all ∨ r.method.kind = .finder) (hty : elemTy r = some ty)
+    (vs : List Value) (hvs : ∀ v ∈ vs, ValOK v) (ds : List Doc) (hds : encElems K env ty vs = some ds)
+    (paging : Option Value) (hpv : ∀ p, paging = some p → ValOK p) (pg : List (Bytes × Doc))
+    (hpg : encPaging K env paging = some pg) (hmeta : r.method.metadata = Option.none)
+    (ht : JsonText ((wcfg K env).finish ((K.fElements, .arr ds) :: pg))) :
+    ∃ resp, serverRespond K env r (.elements vs paging Option.none) = some resp ∧
+      clientReturns K env keq r c resp =
+        .elements (vs.map (norm env encFuel ty)) (paging.map (norm env encFuel (.ref tCollMeta))) Option.none := by
+  have hel := decodeArr_items K hK env F C S ty [.key K.fElements, .idx 0] vs ds hvs hds
+  have hne : (K.fPaging == K.fElements) = false := beq_false_of_ne (fun e => ne_of_bytesLt hK.elemPaging e.symm)
+  have hmd : encMetadata K env r.method Option.none = some [] := by simp [encMetadata, hmeta]
+  refine ⟨⟨K.R.srvInitialStatus, Option.none, false,
+    some (renderJson ((wcfg K env).finish ((K.fElements, .arr ds) :: pg)))⟩, ?_, ?_⟩
+  · simp [serverRespond, hty, hds, hmd, hpg]
+  · cases paging with
+    | none =>
+      simp only [encPaging, Option.some.injEq] at hpg
+      subst hpg
+      have htree : treeOf jsonEnc ((wcfg K env).finish [(K.fElements, .arr ds)]) =
+          .obj [(K.fElements, .arr (treeOfItems jsonEnc ds))] := by
+        simp [EncCfg.finish, wcfg, hK.sortKeys, sortByKey, insertByKey, treeOf, treeOfKvs, jsonEnc]
+      have hlk : List.lookup K.fPaging [(K.fElements, Json.JVal.arr (treeOfItems jsonEnc ds))] = Option.none := by
+        simp [List.lookup, hne]
+      rcases hkind with hk' | hk' <;>
+        simp [clientReturns, hK.okStatus, hk', hty, parseJson_text _ ht, htree, Dec.bind, knownOnly, memberOf, hlk,
+          hel, decRet, hmeta]
+    | some p =>
+      simp only [encPaging] at hpg
+      cases hpe : encode (wcfg K env) encFuel [K.fPaging] (.ref tCollMeta) p with
+      | error e => simp [hpe, toOpt] at hpg
+      | ok d =>
+        simp only [hpe, toOpt, Option.map_some, Option.some.injEq] at hpg
+        subst hpg
+        have hrt := json_roundtrip_tree env F C S 0 encFuel [K.fPaging] [.key K.fPaging] false (.ref tCollMeta) p d
+          (hpv p rfl) (by rw [← wcfg_eq K hK env F C S]; exact hpe)
+        have htree : treeOf jsonEnc ((wcfg K env).finish [(K.fElements, .arr ds), (K.fPaging, d)]) =
+            .obj [(K.fElements, .arr (treeOfItems jsonEnc ds)), (K.fPaging, treeOf jsonEnc d)] := by
+          simp [EncCfg.finish, wcfg, hK.sortKeys, sortByKey, insertByKey, hK.elemPaging, treeOf, treeOfKvs, jsonEnc]
+        have hnn : treeOf jsonEnc d ≠ .null :=
+          treeOf_ne_null jsonEnc (by intro x; cases x <;> simp [jsonEnc, jsonTreeLeaf] <;> split <;> simp) d
+        have hmem : memberOf K.fPaging [(K.fElements, Json.JVal.arr (treeOfItems jsonEnc ds)), (K.fPaging, treeOf jsonEnc d)] =
+            some (treeOf jsonEnc d) := by
+          simp only [memberOf, List.lookup, hne, beq_self_eq_true]
+          cases htd : treeOf jsonEnc d <;> first | rfl | exact absurd htd hnn
+        have hmemE : memberOf K.fElements [(K.fElements, Json.JVal.arr (treeOfItems jsonEnc ds)), (K.fPaging, treeOf jsonEnc d)] =
+            some (.arr (treeOfItems jsonEnc ds)) := by
+          simp [memberOf, List.lookup]
+        have hknown : ∀ extra, knownOnly ([K.fElements, K.fPaging] ++ extra)
+            [(K.fElements, Json.JVal.arr (treeOfItems jsonEnc ds)), (K.fPaging, treeOf jsonEnc d)] = true := by
+          intro extra; simp [knownOnly]
+        have hk0 := hknown []
+        simp only [List.append_nil] at hk0
+        have hpj := parseJson_text _ ht
+        rw [htree] at hpj
+        rcases hkind with hk' | hk' <;>
+          simp [clientReturns, hK.okStatus, hk', hty, hpj, Dec.bind, hk0, hmemE, hmem,
+            hel, decRet, hmeta, jsonTCfg, hrt, ofTRes']
 
 end Restli.E2E
